@@ -379,6 +379,49 @@ def run(ctx):
                 if abs(got - want) > 1e-9 * max(1.0, want) + 1e-9:
                     ctx.violation(f"C14:{label}:wrong-uncertainty:scale-with-zero-point",
                                   f"{label}: {A!r} and {B_!r} (two scales with one zero point): uncertainty {got!r}, first-order propagation gives {want!r}", state["case"])
+        # a scale and a degree of the user's own that are recalibrated between readings (the zero point stated again through
+        # conversions.translate, the size of the degree stated again through equals): the same sums and differences, asked
+        # before and after each correction, follow the declarations in force - measurand and uncertainty alike
+        for k in range(3 if ctx.tier == "quick" else 60):
+            tag = f"{ctx.shard}x{k}"
+            step = m.Temperature.unit(f"zqc14step{tag}", f"zqc14st{tag}")
+            s0 = rng.choice([0.5, 2.0, 1.0])
+            step.equals(s0 * K_)
+            z0 = rng.choice([100.0, 250.0, 10.0])
+            direct = m.Temperature.scale(z0 * K_, f"zqc14recal{tag}", f"zqc14rc{tag}")          # degree = kelvin, zero z0 K
+            stepped = m.Temperature.scale(10 * step, f"zqc14stepped{tag}", f"zqc14sd{tag}")      # degree = step, zero 10 steps
+            zero_k = {direct: z0, stepped: 10 * s0, K_: 0.0}
+            size_k = {direct: 1.0, stepped: s0, K_: 1.0}
+            for phase in range(3):
+                if phase == 1:
+                    z0 = z0 + rng.choice([50.0, -5.0, 0.25])
+                    env.conv.translate(direct, z0 * K_)
+                    zero_k[direct] = z0
+                    ctx.count("zero_points_stated_again")
+                elif phase == 2:
+                    s0 = s0 / 2
+                    step.equals(s0 * K_)
+                    zero_k[stepped], size_k[stepped] = 10 * s0, s0
+                    ctx.count("degree_sizes_stated_again")
+                for _ in range(6):
+                    ul_, ur_ = rng.sample([direct, stepped, K_], 2)
+                    x, y = rng.choice([300.0, 20.0, 4.0]), rng.choice([20.0, 4.0, 0.5])
+                    sx, sy = rng.choice([0, 0.3, 2]), rng.choice([0.4, 0.8, 0])
+                    A, B_ = Mt(Q(x, ul_), sx), Mt(Q(y, ur_), sy)
+                    state["case"] = {"op": "add/sub", "left": repr(A), "right": repr(B_), "recalibrated": phase}
+                    ctx.count("evaluations")
+                    ctx.count("cells/scales_recalibrated_between_readings")
+                    y_in_left = (y * size_k[ur_] + zero_k[ur_] - zero_k[ul_]) / size_k[ul_]
+                    for label, res, lsx, wantm in (("__add__", A + B_, sx, x + y_in_left), ("__sub__", A - B_, sx, x - y_in_left), ("__radd__", A.measurand + B_, 0.0, x + y_in_left)):
+                        want = math.hypot(lsx, sy * size_k[ur_] / size_k[ul_])
+                        got, gotm = core.sf(res.uncertainty.magnitude), core.sf(res.measurand.magnitude)
+                        ctx.distinct(("recalibrated", label, phase, str(ul_)[:9], str(ur_)[:9], bool(sx), bool(sy)), True)
+                        if abs(got - want) > 1e-9 * max(1.0, want) + 1e-9:
+                            ctx.violation(f"C14:{label}:wrong-uncertainty:scale-with-zero-point",
+                                          f"{label}: {A!r} and {B_!r} after {phase} recalibration(s): uncertainty {got!r}, first-order propagation gives {want!r}", state["case"])
+                        if abs(gotm - wantm) > 1e-9 * max(1.0, abs(wantm)) + 1e-6:
+                            ctx.violation(f"C14:{label}:wrong-measurand:scale-with-zero-point",
+                                          f"{label}: {A!r} and {B_!r} after {phase} recalibration(s): measurand {gotm!r}, the declarations in force give {wantm!r}", state["case"])
     except KeyError:
         ctx.count("user_scale_section_skipped")
     # quotients (and products back) of very large or very small float readings: the operands' ratio and every
